@@ -3,6 +3,7 @@ mod common;
 mod gen;
 mod nsscope;
 mod props;
+mod xmlwrite;
 
 use common::*;
 
@@ -66,6 +67,7 @@ fn main() {
         "C14" => c14,
         "C15" => c15,
         "C16" => c16,
+        "C20" => c20,
         "C18" => c18,
     );
     std::process::exit(code);
